@@ -1,5 +1,6 @@
 use crate::core::Prop;
 
+pub mod c01;
 pub mod c03;
 pub mod c04;
 pub mod c05;
@@ -32,7 +33,7 @@ pub mod c30;
 pub mod modelrepo;
 
 pub fn all() -> Vec<Prop> {
-    vec![c03::PROP, c04::PROP, c05::PROP, c06::PROP, c07::PROP, c08::PROP, c09::PROP, c10::PROP, c11::PROP, c12::PROP, c13::PROP, c14::PROP, c15::PROP, c16::PROP, c17::PROP, c18::PROP, c19::PROP, c20::PROP, c21::PROP, c22::PROP, c23::PROP, c24::PROP, c25::PROP, c26::PROP, c27::PROP, c28::PROP, c29::PROP]
+    vec![c01::PROP_C01, c01::PROP_C02, c03::PROP, c04::PROP, c05::PROP, c06::PROP, c07::PROP, c08::PROP, c09::PROP, c10::PROP, c11::PROP, c12::PROP, c13::PROP, c14::PROP, c15::PROP, c16::PROP, c17::PROP, c18::PROP, c19::PROP, c20::PROP, c21::PROP, c22::PROP, c23::PROP, c24::PROP, c25::PROP, c26::PROP, c27::PROP, c28::PROP, c29::PROP]
 }
 
 /// Properties served by the `vcheck-cli` binary (needs the `cli` feature).
